@@ -322,6 +322,14 @@ def similarity_shift(expr, var):
 
     expr2 = expr.replace(var * scale + shift, var)
 
+    # The replacement only rewrites the function arguments (and literal
+    # occurrences of a * var + b).  If var also appears elsewhere, say
+    # t * Heaviside(2 * t), then expr2(a * var + b) is not expr and the
+    # similarity and shift theorems do not apply.
+    if (scale != 1 or shift != 0) and \
+       (expr2.subs(var, var * scale + shift) - expr).expand() != 0:
+        return expr, 1, 0
+
     return expr2, scale, shift
 
 
